@@ -195,7 +195,8 @@ def run(ctx):
             if it % 3 == 0:
                 # the same table interpolated again to other radii and to the first ones once more: no state may carry over
                 # (the contract snapshots request and table before every call)
-                cf.interpolate((requests(rng, tab_au, 3) * (1 + 1e-9) * u.au).to(u.Unit(runit)))
+                for un2 in rng.permutation(['au', 'pc', 'cm']):       # ... and in other length units
+                    cf.interpolate((requests(rng, tab_au, 3) * (1 + 1e-9) * u.au).to(u.Unit(str(un2))))
                 cf.interpolate((req * (1 + 1e-9) * u.au).to(u.Unit(runit)))
                 ctx.event('convolved:same-table-again')
         except Exception as exc:
